@@ -422,6 +422,8 @@ class SwiftTypesBackend(SwiftBaseBackend):
 
             if not is_user_defined_type(list_data_type) and not list_nsnumber_type:
                 value = '(arg'
+                # nothing is mapped, so there is no closure to close either
+                suffix = ''
             else:
                 value = '{}.map {}'.format(value,
                                            prefix)
